@@ -251,7 +251,7 @@ func main() {
 							return true
 						}
 						switch se.Sel.Name {
-						case "Mutex", "RWMutex", "Once":
+						case "Mutex", "RWMutex", "Once", "Pool":
 							edits = append(edits, edit{off(id.Pos()), len(id.Name), "zzsimhook"})
 							nSync++
 						case "Cond", "NewCond", "WaitGroup":
